@@ -186,22 +186,30 @@ func genC05file(g *G) {
 
 // fault injectors for C19: each returns the text to insert (the fault sits on ONE line).
 var c19Faults = []struct {
-	name string
-	text string
+	name    string
+	text    string
+	lineOff int // the fault sits on this line of text (0 = its first line)
 }{
-	{"illegal-char-in-tag", "{$x # 1}"},
-	{"invalid-utf8-in-tag", "{$x \xe9 1}"},
-	{"invalid-utf8-lone-lead-in-tag", "{$x + \xc3}"},
-	{"stray-closing-brace", "text } more"},
-	{"unterminated-string", "{'abc}"},
-	{"unknown-command", "{/fooo}"},
-	{"unknown-symbol", "{1 ! 2}"},
-	{"bad-number", "{08}"},
-	{"quoted-expr-data", "{call .zz data=\"$x +\"/}"},
-	{"quoted-expr-value", "{call .zz}{param k value=\"(1\"/}{/call}"},
-	{"quoted-expr-css", "{css $x +, c}"},
-	{"unterminated-comment", "/* never closed"},
-	{"unterminated-tag", "{if $x"},
+	// multi-line commands: the error belongs to the line of the part that holds the fault
+	{"quoted-expr-data-multiline", "{call .zz data=\"$x +\"}\n{param k: 1 /}\n{param j}x{/param}\n{/call}", 0},
+	{"quoted-expr-value-multiline", "{call .zz}\n{param j: 1 /}\n{param k value=\"(1\"/}\n{param l: 2 /}\n{/call}", 2},
+	{"bad-param-expr-multiline", "{call .zz}\n{param j: 1 /}\n{param k: 1 + /}\n{/call}", 2},
+	{"bad-case-multiline", "{switch 1}\n{case 1}a\n{case 2 +}b\n{default}c\n{/switch}", 2},
+	{"bad-elseif-multiline", "{if true}\na\n{elseif 1 +}\nb\n{else}\nc\n{/if}", 2},
+	{"bad-plural-case-multiline", "{msg desc=\"d\"}\n{plural 1}\n{case x}one\n{default}other\n{/plural}\n{/msg}", 2},
+	{"illegal-char-in-tag", "{$x # 1}", 0},
+	{"invalid-utf8-in-tag", "{$x \xe9 1}", 0},
+	{"invalid-utf8-lone-lead-in-tag", "{$x + \xc3}", 0},
+	{"stray-closing-brace", "text } more", 0},
+	{"unterminated-string", "{'abc}", 0},
+	{"unknown-command", "{/fooo}", 0},
+	{"unknown-symbol", "{1 ! 2}", 0},
+	{"bad-number", "{08}", 0},
+	{"quoted-expr-data", "{call .zz data=\"$x +\"/}", 0},
+	{"quoted-expr-value", "{call .zz}{param k value=\"(1\"/}{/call}", 0},
+	{"quoted-expr-css", "{css $x +, c}", 0},
+	{"unterminated-comment", "/* never closed", 0},
+	{"unterminated-tag", "{if $x", 0},
 }
 
 func genC19parse(g *G) {
@@ -233,11 +241,11 @@ func genC19parse(g *G) {
 					for at < len(lines) && strings.HasPrefix(lines[at], "{@param") {
 						at++
 					}
-					out = append(append(append([]string{}, lines[:at]...), fl.text), lines[at:]...)
-					faultLine = at + 1
+					out = append(append(append([]string{}, lines[:at]...), strings.Split(fl.text, "\n")...), lines[at:]...)
+					faultLine = at + 1 + fl.lineOff
 				} else {
-					out = append(append(append([]string{}, lines[:li]...), fl.text), lines[li:]...)
-					faultLine = li + 1
+					out = append(append(append([]string{}, lines[:li]...), strings.Split(fl.text, "\n")...), lines[li:]...)
+					faultLine = li + 1 + fl.lineOff
 				}
 				src := strings.Join(out, "\n")
 				if (fl.name == "unterminated-comment" && strings.Contains(strings.Join(out[faultLine:], "\n"), "*/")) ||
